@@ -899,6 +899,13 @@ func (w *World) VerifyTable(ct *Contract, pkg *ssa.Package) (res *FnResult) {
 					}
 				}
 			default:
+				if meth, okm := strings.CutPrefix(word, "renders:"); okm {
+					// the accessor method of the key type, run by this engine on every key of the table, returns
+					// exactly the table's value for that key (a lookup re-implemented over another structure, an
+					// off-by-one bound or a default that shadows an entry fails here)
+					bad = append(bad, e.tableRenders(pkg, ct, ms, meth)...)
+					continue
+				}
 				e.bail("unknown table check %q", word)
 			}
 		}
@@ -925,6 +932,59 @@ func (w *World) VerifyTable(ct *Contract, pkg *ssa.Package) (res *FnResult) {
 	res.Notes = append(res.Notes, fmt.Sprintf("%d entries evaluated from the package initialiser", len(ms.Keys)))
 	res.Obls = e.Obls
 	return res
+}
+
+// tableRenders: see the `renders:<Method>` table check.
+func (e *Exec) tableRenders(pkg *ssa.Package, ct *Contract, ms *MapState, meth string) (bad []string) {
+	if ct.KeyType == "" {
+		e.bail("table check `renders:` needs `keys <Type>`")
+	}
+	obj := pkg.Pkg.Scope().Lookup(ct.KeyType)
+	if obj == nil {
+		e.bail("no type %s", ct.KeyType)
+	}
+	sel := pkg.Prog.MethodSets.MethodSet(obj.Type()).Lookup(pkg.Pkg, meth)
+	if sel == nil {
+		sel = pkg.Prog.MethodSets.MethodSet(types.NewPointer(obj.Type())).Lookup(pkg.Pkg, meth)
+	}
+	if sel == nil {
+		e.bail("type %s has no method %s", ct.KeyType, meth)
+	}
+	fn := pkg.Prog.MethodValue(sel)
+	if fn == nil || fn.Blocks == nil || len(fn.Params) != 1 {
+		e.bail("method %s.%s cannot be evaluated", ct.KeyType, meth)
+	}
+	if _, isPtr := fn.Params[0].Type().(*types.Pointer); isPtr {
+		e.bail("method %s.%s has a pointer receiver", ct.KeyType, meth)
+	}
+	for i, k := range ms.Keys {
+		kd, _ := e.constKey(k)
+		want, okw := ms.Vals[i].(*StringVal)
+		if !okw {
+			continue
+		}
+		ws, okc := concreteString(want)
+		if !okc {
+			continue
+		}
+		st := &State{Heap: map[int]Val{}, Maps: map[int]*MapState{}}
+		outs := e.execFunc(st, fn, []Val{k}, nil, 1)
+		if len(outs) != 1 || outs[0].Panic || len(outs[0].Results) != 1 {
+			bad = append(bad, fmt.Sprintf("%s(%s).%s() does not evaluate to one value", ct.KeyType, kd, meth))
+			continue
+		}
+		got, okg := outs[0].Results[0].(*StringVal)
+		gs, okgc := "", false
+		if okg {
+			gs, okgc = concreteString(got)
+		}
+		if !okgc {
+			bad = append(bad, fmt.Sprintf("%s(%s).%s() is not a constant string", ct.KeyType, kd, meth))
+		} else if gs != ws {
+			bad = append(bad, fmt.Sprintf("%s(%s).%s() = %q, the table says %q", ct.KeyType, kd, meth, gs, ws))
+		}
+	}
+	return bad
 }
 
 // bindPositional adds the aliases recv / arg1, arg2, ... (used by interface contracts, whose
